@@ -699,6 +699,14 @@ func (x *Exec) RunAsm(p *AsmProg, st *AsmState, hooks AsmHooks, maxSteps int) st
 			// raw bytes: the only sequence the assemblers emit this way is  LEAQ -4(PC), R9
 			if op == "WORD" && uint16(in.F.O) == 0x8d4c && st.PC+2 < len(p.Ins) && p.Ins[st.PC+1].Op == "BYTE" && p.Ins[st.PC+2].Op == "LONG" {
 				st.R["R9"] = codeAddr{st.PC}
+				if xr := p.Ins[st.PC+2].Xref; xr != "" {
+					// LEAQ label(PC), R9: the rel32 is cross-referenced to a label
+					t, ok := p.labels[xr]
+					if !ok {
+						x.notEncoded("asm: LEAQ of an unknown label %s", xr)
+					}
+					st.R["R9"] = codeAddr{t}
+				}
 				next = st.PC + 3
 				break
 			}
